@@ -770,7 +770,15 @@ impl Server {
             let response = if let Some(sync_resp) = sync_response {
                 sync_resp
             } else {
-                self.process_frame(frame, id)?
+                // A command-level failure (wrong type, no such key, ...) is a reply to that
+                // command; only connection-level failures end the connection
+                match self.process_frame(frame, id) {
+                    Ok(resp) => resp,
+                    Err(e) => match Self::command_error_reply(&e) {
+                        Some(reply) => reply,
+                        None => return Err(e),
+                    },
+                }
             };
             responses.push(response);
         }
@@ -867,6 +875,21 @@ impl Server {
         Ok(has_pending_writes)
     }
     
+    /// Error reply for a command that failed in its handler, or None if the error is a
+    /// connection-level failure
+    fn command_error_reply(e: &FerrousError) -> Option<RespFrame> {
+        match e {
+            FerrousError::Storage(crate::error::StorageError::WrongType) => {
+                Some(RespFrame::error("WRONGTYPE Operation against a key holding the wrong kind of value"))
+            }
+            FerrousError::Storage(err) => Some(RespFrame::error(format!("ERR {}", err))),
+            FerrousError::Command(_) | FerrousError::Script(_) | FerrousError::LuaError(_) => {
+                Some(RespFrame::error(e.to_string()))
+            }
+            _ => None,
+        }
+    }
+
     /// Process connections with pending writes
     /// Returns true if any work was done
     fn process_pending_writes(&mut self) -> Result<bool> {
